@@ -1929,6 +1929,13 @@ class Identifier(str):
         return (str(self),), {"token": self.token}
 
 
+def identifier_str(name: str) -> str:
+    """Return _name_ as it is written in markup, quoted if it's not a plain word."""
+    if RE_PROPERTY.fullmatch(name):
+        return name
+    return _quote_string(_escape_string(name))
+
+
 def parse_identifier(token: TokenT) -> Identifier:
     """Parse _token_ as an identifier."""
     if is_token_type(token, TokenType.WORD):
